@@ -857,7 +857,7 @@ var didAssumptions = []string{
 func C03(t Tier) int {
 	run := report.NewRun("C03", t.Name, "model_checking", "E1+E2")
 	sys := didSystem(didVariant{ID: "C03", Ctl: []string{"NB", "RS", "XI"}})
-	dl := deadline(t, 150*time.Second, 15*time.Minute)
+	dl := deadline(t, 120*time.Second, 15*time.Minute)
 	bounds := []explore.Bounds{{Depth: 4, V: 1, Deadline: dl}, {Depth: 5, V: 1, Deadline: dl}}
 	if t.Thorough {
 		bounds = []explore.Bounds{{Depth: 5, V: 1, Deadline: dl}, {Depth: 5, V: 2, Deadline: dl}, {Depth: 6, V: 2, Deadline: dl}, {Depth: 7, V: 2, Deadline: dl}}
@@ -870,7 +870,7 @@ func C03(t Tier) int {
 func C04(t Tier) int {
 	run := report.NewRun("C04", t.Name, "model_checking", "E1+E2")
 	sys := didSystem(didVariant{ID: "C04", Replays: true, EmptyID: true, Small: true, Ctl: []string{"NB", "RS", "XI"}})
-	dl := deadline(t, 150*time.Second, 15*time.Minute)
+	dl := deadline(t, 120*time.Second, 15*time.Minute)
 	bounds := []explore.Bounds{{Depth: 4, V: 1, Deadline: dl}, {Depth: 5, V: 1, Deadline: dl}}
 	if t.Thorough {
 		bounds = []explore.Bounds{{Depth: 5, V: 1, Deadline: dl}, {Depth: 6, V: 1, Deadline: dl}, {Depth: 6, V: 2, Deadline: dl}, {Depth: 7, V: 2, Deadline: dl}}
@@ -883,7 +883,7 @@ func C04(t Tier) int {
 func C05(t Tier) int {
 	run := report.NewRun("C05", t.Name, "model_checking", "E1+E2")
 	sys := didSystem(didVariant{ID: "C05", EmptyID: true, Ctl: []string{"NB", "RS", "XI"}})
-	dl := deadline(t, 150*time.Second, 15*time.Minute)
+	dl := deadline(t, 120*time.Second, 15*time.Minute)
 	bounds := []explore.Bounds{{Depth: 3, V: 2, Deadline: dl}, {Depth: 4, V: 2, Deadline: dl}}
 	if t.Thorough {
 		bounds = []explore.Bounds{{Depth: 4, V: 2, Deadline: dl}, {Depth: 5, V: 2, Deadline: dl}, {Depth: 5, V: 3, Deadline: dl}, {Depth: 6, V: 3, Deadline: dl}}
@@ -901,7 +901,7 @@ func C05(t Tier) int {
 func C11(t Tier) int {
 	run := report.NewRun("C11", t.Name, "model_checking", "E1+E2")
 	sys := didSystem(didVariant{ID: "C11", Mismatch: true, EmptyID: true, StrictID: true, Small: true, Prefix: true, Ctl: []string{"NB", "XI"}})
-	dl := deadline(t, 150*time.Second, 15*time.Minute)
+	dl := deadline(t, 120*time.Second, 15*time.Minute)
 	bounds := []explore.Bounds{{Depth: 4, V: 1, Deadline: dl}, {Depth: 5, V: 1, Deadline: dl}}
 	if t.Thorough {
 		bounds = []explore.Bounds{{Depth: 5, V: 1, Deadline: dl}, {Depth: 6, V: 1, Deadline: dl}, {Depth: 6, V: 2, Deadline: dl}, {Depth: 7, V: 2, Deadline: dl}}
